@@ -227,9 +227,11 @@ func genPoint(rt *rapid.T, r XRect, class string, outerTop bool, label string) X
 	panic("class " + class)
 }
 
+// uniform over the main classes: the router's only caller uses edge/edge, but the property quantifies over all
+// positions, and a seeded change (seeded/r2-m19) lives on interior start x side end only
 var (
-	startMain = []string{"edge", "edge", "edge", "interior", "side"}
-	endMain   = []string{"edge", "edge", "edge", "side"}
+	startMain = []string{"edge", "edge", "interior", "interior", "side"}
+	endMain   = []string{"edge", "side"}
 )
 
 func genCorridorCase(rt *rapid.T, maxK int, st *Stats) *CorridorCase {
@@ -581,6 +583,14 @@ func exhaustiveCorridors(t *testing.T, p *Property, fit bool) {
 					ends = append(ends, XY{last.L + (last.R-last.L)*float64(j)/4, last.B})
 				}
 				starts = append(starts, XY{first.L, (first.T + first.B) / 2}, XY{first.R, (first.T + first.B) / 2})
+				for i := 1; i <= 3; i++ { // interior starts on a 3x3 sub-grid, except those on a chord between corridor corners (K1d)
+					for j := 1; j <= 3; j++ {
+						q := XY{first.L + (first.R-first.L)*float64(j)/4, first.T + (first.B-first.T)*float64(i)/4}
+						if !onVertexChord(q, rs) {
+							starts = append(starts, q)
+						}
+					}
+				}
 				ends = append(ends, XY{last.L, (last.T + last.B) / 2}, XY{last.R, (last.T + last.B) / 2})
 				for _, s := range starts {
 					for _, e := range ends {
@@ -622,5 +632,5 @@ func exhaustiveCorridors(t *testing.T, p *Property, fit bool) {
 	}
 	rec(nil, 0)
 	complete = true
-	st.Extra["exhaustive_corridors"] = fmt.Sprintf("all corridors of 1..%d rectangles with integer edges in 0..%d (%d corridors) x 5 start x 5 end positions", K, G, corridors)
+	st.Extra["exhaustive_corridors"] = fmt.Sprintf("all corridors of 1..%d rectangles with integer edges in 0..%d (%d corridors) x (5 + up to 9 interior) start x 5 end positions", K, G, corridors)
 }
